@@ -103,6 +103,9 @@ package session
 //@ field[C20] Session.logonRequest: immutable_after(SetLogonRequest, newSession)
 //@ field[C20] Session.unmarshaller: immutable_after(SetUnmarshaller, newSession)
 //@ field[C20] Session.side: immutable_after(NewAcceptorSession, NewInitiatorSession)
+// Every function that moves the state machine or emits a message is covered by a proof
+// (has a contract, or is executed in line by a function that has one).
+//@ rule[C05,C06,C07,C08,C09,C10,C14,C15,C16] covered-callers: (*Session).changeState, (*Session).send, (*Session).sendWithErrorCheck
 //@ callguard[C05] Session.counter.GetNextSeqNum: mu
 //@ callguard[C05] Session.Router.Send: mu
 //@ field Session.LogonHandler: callback(pure)
@@ -232,6 +235,7 @@ package session
 //@   ensures[C16] @rejected imp(!sendFailed && (perr != nil || (old(s.state) != SuccessfulLogged && old(s.state) != WaitingLogoutAnswer)), sentN == old(sentN) + 1 && rejectFor(s, sel(sentAt, old(sentN)), string(data)))
 //@   ensures[C16] @stable_on_error imp(perr != nil, s.state == old(s.state))
 //@   ensures[C16] @stable imp(old(s.state) != SuccessfulLogged, s.state != SuccessfulLogged)
+//@   ensures[C16] @idle_unchanged imp(perr == nil && ((old(s.state) == WaitingLogon && s.side == sideAcceptor) || (old(s.state) == WaitingLogonAnswer && s.side == sideInitiator)), s.state == old(s.state))
 //@   ensures[C05] @numbers imp(!sendFailed, cOut(s.counter) - old(cOut(s.counter)) == sentN - old(sentN))
 
 // ---- Logon (C06, C07, C16) ---------------------------------------------------------------
@@ -295,6 +299,7 @@ package session
 //@   ensures[C05] @numbers imp(!sendFailed, cOut(s.counter) - old(cOut(s.counter)) == sentN - old(sentN))
 //@   ensures[C05] @mirrored imp(!sendFailed && perr == nil && old(s.state) == WaitingLogon && s.side == sideAcceptor && sentN > old(sentN), hSender(hdr(sel(sentAt, old(sentN)))) == hTarget(hdr(inc)) && hTarget(hdr(sel(sentAt, old(sentN)))) == hSender(hdr(inc)))
 //@   ensures[C06] @limits s.LogonSettings != nil && s.LogonSettings.HeartBtLimits == old(s.LogonSettings.HeartBtLimits)
+//@   ensures[C15] @timeouts s.LogonSettings.CloseTimeout == old(s.LogonSettings.CloseTimeout) && s.LogonSettings.LogonTimeout == old(s.LogonSettings.LogonTimeout)
 //@   ensures[C06] @otherstates imp(perr == nil && old(s.state) != WaitingLogon && old(s.state) != WaitingLogonAnswer && old(s.state) != SuccessfulLogged, s.state == old(s.state) && sentN == old(sentN))
 
 // ---- stored messages and retransmission (C10, C07, C16, C19) -----------------------------
@@ -337,6 +342,37 @@ package session
 //@   ensures[C05] @numbers imp(!sendFailed, cOut(s.counter) - old(cOut(s.counter)) == sentN - old(sentN))
 //@   ensures[C10] @toend imp(perr == nil && old(s.state) == SuccessfulLogged && cerr == nil && berr == nil && mEndSeqNo(req) == 0 && 1 <= mBeginSeqNo(req) && mBeginSeqNo(req) <= cOut(s.counter) && allStored(gHas(s.messageStorage), mBeginSeqNo(req), cOut(s.counter)), resentN == old(resentN) + cOut(s.counter) - mBeginSeqNo(req) + 1)
 //@   ensures[C16] @stable s.state == old(s.state)
+
+// ---- construction: a new session is not logged on and waits in its role's idle state ----------
+//@ global[C06,C07] ErrMissingHandler = errconst(21)
+//@ global[C06,C07] ErrMissingLogonSettings = errconst(22)
+//@ global[C06,C07] ErrMissingSessionOts = errconst(23)
+//@ global[C06,C07] ErrMissingMessageBuilder = errconst(24)
+//@ global[C06,C07] ErrMissingRequiredTag = errconst(25)
+//@ global[C06,C07] ErrMissingErrorCodes = errconst(26)
+//@ global[C06,C07] ErrInvalidHeartBtInt = errconst(27)
+//@ global[C06,C07] ErrMissingEncryptMethod = errconst(28)
+//@ global[C06,C07] ErrMissingEncryptedMethods = errconst(29)
+//@ global[C06,C07] ErrInvalidHeartBtLimits = errconst(30)
+//@ global[C06,C07] ErrInvalidLogonTimeout = errconst(31)
+//@ func (opts *Opts) validate() (err error)
+//@   pure
+//@   ensures[C06,C07] @checked imp(err == nil, opts != nil && opts.Tags != nil && opts.SessionErrorCodes != nil && opts.MessageBuilders.LogonBuilder != nil && opts.MessageBuilders.LogoutBuilder != nil && opts.MessageBuilders.RejectBuilder != nil && opts.MessageBuilders.HeartbeatBuilder != nil && opts.MessageBuilders.TestRequestBuilder != nil && opts.MessageBuilders.ResendRequestBuilder != nil)
+//@ func newSession(opts *Opts, handler Handler, settings *LogonSettings, cs CounterStorage, ms MessageStorage) (session *Session, err error)
+//@   modifies cancelled(*), ctxOf(*), ctxParent(*)
+//@   ensures[C06,C07] @built imp(err == nil, session != nil && fresh(session) && session.eventHandler != nil && session.LogonSettings == settings && session.Opts == opts)
+//@ func NewAcceptorSession(params *Opts, handler Handler, settings *LogonSettings, onLogon logonHandler, cs CounterStorage, ms MessageStorage) (s *Session, err error)
+//@   modifies trigN, trigAt, everLogged, routerStopped, timersStarted, cancelled(*), ctxOf(*), ctxParent(*)
+//@   ensures[C06,C07] @idle imp(err == nil, s != nil && s.state == WaitingLogon && s.side == sideAcceptor)
+//@   ensures[C06,C07] @silent sentN == old(sentN) && everLogged == old(everLogged)
+//@ func NewInitiatorSession(handler Handler, opts *Opts, settings *LogonSettings, cs CounterStorage, ms MessageStorage) (s *Session, err error)
+//@   modifies trigN, trigAt, everLogged, routerStopped, timersStarted, cancelled(*), ctxOf(*), ctxParent(*)
+//@   ensures[C06,C07] @idle imp(err == nil, s != nil && s.state == WaitingLogonAnswer && s.side == sideInitiator)
+//@   ensures[C06,C07] @silent sentN == old(sentN) && everLogged == old(everLogged)
+//@ func (s *Session) StartWaiting()
+//@   requires s != nil && s.eventHandler != nil
+//@   modifies s.state, everLogged, trigN, trigAt, routerStopped, timersStarted
+//@   ensures[C06,C07] s.state == WaitingLogon && everLogged == old(everLogged)
 
 // ---- Logout and Stop (C15) -----------------------------------------------------------------
 //@ func (s *Session) Logout() (err error)
